@@ -16,7 +16,10 @@ import (
 	"net/http"
 	"net/http/httptest"
 	"net/netip"
+	"os"
+	"path/filepath"
 	"slices"
+	"strings"
 	"testing"
 	"time"
 
@@ -80,6 +83,7 @@ func TestVFC01Runtime(t *testing.T) {
 
 		nPhases := rapid.IntRange(1, 4).Draw(t, "n_phases")
 		lastToggled := ""
+		repoints := 0
 		for ph := 1; ph <= nPhases; ph++ {
 			nOps := rapid.IntRange(1, 2).Draw(t, fmt.Sprintf("p%d_n_ops", ph))
 			for k := 0; k < nOps; k++ {
@@ -89,7 +93,7 @@ func TestVFC01Runtime(t *testing.T) {
 					kinds = append(kinds, "protection", "protection", "protection")
 				}
 				if len(c.Block) > 0 {
-					kinds = append(kinds, "toggle_block", "toggle_block", "toggle_block")
+					kinds = append(kinds, "toggle_block", "toggle_block", "toggle_block", "repoint_block")
 				}
 				if len(c.Allow) > 0 {
 					kinds = append(kinds, "toggle_allow", "toggle_allow")
@@ -121,6 +125,40 @@ func TestVFC01Runtime(t *testing.T) {
 						// with unchanged contents
 						continue
 					}
+				case "repoint_block":
+					// the list gets another source (a new URL) with other rules,
+					// possibly none at all
+					i := rapid.IntRange(0, len(w.blockURLs)-1).Draw(t, label+"_list")
+					nr := rapid.SampledFrom([]int{0, 0, 1, 2, 3}).Draw(t, label+"_n_rules")
+					var rs []vfRule
+					for j := 0; j < nr; j++ {
+						rs = append(rs, vfDrawRule(t, c.Subjects, fmt.Sprintf("%s_r%d", label, j), false, c.Client, c.Core))
+					}
+					repoints++
+					newURL := filepath.Join(filepath.Dir(w.blockURLs[i]), fmt.Sprintf("repointed-%d-%d.txt", i, repoints))
+					if werr := os.WriteFile(newURL, []byte(strings.Join(vfTexts(rs), "\n")+"\n"), 0o644); werr != nil {
+						t.Fatalf("VERIF-INCONCLUSIVE writing list source: %v", werr)
+					}
+					b, _ := json.Marshal(map[string]any{
+						"url": w.blockURLs[i], "whitelist": false,
+						"data": map[string]any{"name": fmt.Sprintf("list %d", i), "url": newURL, "enabled": c.BlockOn[i]},
+					})
+					rec := httptest.NewRecorder()
+					handlers["POST /control/filtering/set_url"](rec, httptest.NewRequest(http.MethodPost, "/control/filtering/set_url", bytes.NewReader(b)))
+					if rec.Code == http.StatusOK {
+						// the names of the rules that have gone are worth asking for
+						c.focus = nil
+						for _, r := range c.Block[i] {
+							c.focus = append(c.focus, r.Domain)
+						}
+						c.Block[i] = rs
+						w.blockURLs[i] = newURL
+						vfC01.Class(fmt.Sprintf("rt:repoint_block:accepted:rules=%d", nr))
+					} else {
+						// a refused edit leaves the list as it was
+						vfC01.Class("rt:repoint_block:refused")
+					}
+					lastToggled = ""
 				case "client_update", "client_update_rejected":
 					// what POST /control/clients/update does with the registry
 					prev, ok := w.storage.FindByName(c.Client.Name)
